@@ -266,8 +266,10 @@ def parse_output(out, res):
             if m:
                 res.violation = {'kind': 'action_property', 'name': m.group(1), 'trace': _parse_trace(lines, k + 1)}
                 continue
-            if ln.startswith('Error: Temporal properties were violated'):
-                res.violation = {'kind': 'temporal', 'name': 'temporal', 'trace': _parse_trace(lines, k + 1)}
+            m = re.match(r'^Error: Temporal propert(?:y (\w+) was|ies were) violated', ln)
+            if m:
+                res.violation = {'kind': 'temporal', 'name': m.group(1) or 'temporal',
+                                 'trace': _parse_trace(lines, k + 1)}
                 continue
             m = re.match(r'^Error: (.*)', ln)
             if m and 'behavior up to this point' not in ln:
